@@ -32,7 +32,9 @@ RULE = (
     "complete product of storing calls (Problem(initial_defaults), add_fluent(default_initial_value), "
     "set_initial_value on 0-ary and 1-ary fluents, InstantaneousAction/DurativeAction/Problem-timed "
     "assign, increase and decrease effects, ActionInstance, MultiAgentProblem set_initial_value and "
-    "agent/environment fluent defaults) x target types x values (constants of every type, fluent, "
+    "agent/environment fluent defaults; two-call histories: unconditional legal assignment then conditional "
+    "assignment of the same fluent, per-type default keyed by one of 8 types then add_fluent of the target "
+    "type) x target types x values (constants of every type, fluent, "
     "parameter and arithmetic expressions), each followed by one legal call; non-trivial = the value "
     "is incompatible with the target or is not a constant where a constant is required"
 )
@@ -52,6 +54,10 @@ TYPES = {
     "S": ("user", "S"),
 }
 NUMERIC = ("int03", "int", "real11", "real")
+# key types of the per-type defaults handed to Problem(initial_defaults=...) in the
+# "initial_defaults_key:<k>" contexts (the fluent added afterwards has the case's target type)
+KEY_TYPES = ["bool", "int03", "int010", "int", "real11", "real", "T", "S"]
+LEGAL = {"bool": "true", "int03": "0", "int": "0", "real11": "0", "real": "0", "T": "o1", "S": "s1"}
 CONSTS = ["true", "false", "5", "0", "-1", "3", "1/2", "7/2", "o1", "s1", "c1"]
 SRC = list(TYPES) + ["C"]
 VALUES = CONSTS + ["f:" + t for t in SRC] + ["p:" + t for t in SRC] + ["f:int03+1", "f:real/2"]
@@ -79,7 +85,11 @@ CONTEXTS = [
     ("ma.env_fluent_default", True),
     ("ma.agent_fluent_default", True),
     ("ma.initial_defaults", True),
-]
+    # two-call histories
+    ("inst.add_effect_cond_after", False),  # legal unconditional assignment first, then a conditional one
+    ("dur.add_effect_cond_after", False),
+    ("prob.add_timed_effect_cond_after", False),
+] + [("initial_defaults_key:" + k, True) for k in KEY_TYPES]  # per-type default keyed by k, fluent of the target type
 NEEDS_CONST = dict(CONTEXTS)
 # storing calls that run the same library code share one fingerprint site
 SITE = {
@@ -92,7 +102,11 @@ SITE = {
     "set_initial_value_arg": "Problem.set_initial_value",
     "ma.set_initial_value": "MultiAgentProblem.set_initial_value",
     "inst.add_effect_cond": "inst.add_effect",
+    "inst.add_effect_cond_after": "inst.add_effect",
+    "dur.add_effect_cond_after": "dur.add_effect",
+    "prob.add_timed_effect_cond_after": "prob.add_timed_effect",
 }
+SITE.update({"initial_defaults_key:" + k: "initial_defaults(other type)" for k in KEY_TYPES})
 
 
 def site(ctx):
@@ -146,6 +160,8 @@ class World:
     def type(self, tn):
         if tn == "C":
             return self.ut["C"]
+        if tn == "int010":
+            return self.tm.IntType(0, 10)
         ts = TYPES[tn]
         tm = self.tm
         if ts[0] == "bool":
@@ -366,6 +382,13 @@ def scenario(ctx, tn, vl, do_store=True):
                 return o
         else:
             P = w.problem()
+    elif ctx.startswith("initial_defaults_key:"):
+        # the constructor call is preparatory here: a rejected or pointless one ends the case
+        try:
+            P = w.problem(initial_defaults={w.type(ctx.split(":")[1]): w.value(vl)})
+        except UPException:
+            o.note = "constructor rejected"
+            return o
     else:
         P = w.problem()
     inst = up.model.InstantaneousAction("a", w.ptypes(), w.env)
@@ -382,6 +405,14 @@ def scenario(ctx, tn, vl, do_store=True):
     fe = em.FluentExp(tgt)
     cond = em.FluentExp(w.src["bool"])
     if ctx == "initial_defaults":
+        o.before = dump(P)
+        if do_store:
+            attempt(lambda: P.add_fluent(tgt))
+            if o.accepted:
+                o.stored = P.fluents_defaults.get(tgt)
+                if o.stored is None:
+                    o.note = "no default stored"
+    elif ctx.startswith("initial_defaults_key:"):
         o.before = dump(P)
         if do_store:
             attempt(lambda: P.add_fluent(tgt))
@@ -419,18 +450,28 @@ def scenario(ctx, tn, vl, do_store=True):
                 o.stored = box[0].actual_parameters[0]
     else:
         P.add_fluent(tgt)
-        o.before = dump(P)
         holder, meth = ctx.split(".")
+        after = meth.endswith("_after")
+        meth = meth[: -len("_after")] if after else meth
+        if after:  # history: a legal unconditional assignment of the same fluent comes first
+            legal = w.value(LEGAL[tn])
+            if holder == "inst":
+                inst.add_effect(fe, legal)
+            elif holder == "dur":
+                dur.add_effect(StartTiming(), fe, legal)
+            else:
+                P.add_timed_effect(GlobalStartTiming(1), fe, legal)
+        o.before = dump(P)
         if holder == "inst":
             fn = getattr(inst, meth.replace("_cond", ""))
             args = [fe, None]
             last = lambda: inst.effects[-1]
         elif holder == "dur":
-            fn = getattr(dur, meth)
+            fn = getattr(dur, meth.replace("_cond", ""))
             args = [StartTiming(), fe, None]
             last = lambda: dur.effects[StartTiming()][-1]
         else:
-            fn = getattr(P, meth)
+            fn = getattr(P, meth.replace("_cond", ""))
             args = [GlobalStartTiming(1), fe, None]
             last = lambda: P.timed_effects[GlobalStartTiming(1)][-1]
         kw = {"condition": cond} if meth.endswith("_cond") else {}
@@ -463,6 +504,8 @@ def check_case(ctx, tn, vl):
     """-> (list of (sub-oracle, what), outcome label, nontrivial)"""
     out = []
     o = scenario(ctx, tn, vl)
+    if o.note == "constructor rejected":
+        return [], "preparatory-call-rejected", False
     need_const = NEEDS_CONST[ctx]
     assign_like = not ("increase" in ctx or "decrease" in ctx)
     # classify the input by the library's own notion (for vacuity accounting only)
